@@ -80,6 +80,29 @@ func appendPadHelper1(tb *TB, f *ssa.Function) string {
 	if bad != "" {
 		return bad
 	}
+	// the one-shot form: dst = append(dst, data...); if m := width − len(data); m > 0 { dst = append(dst, make([]byte, m)...) }
+	if r := res[0]; r.Op == "ite" && len(r.Args) == 3 && r.Args[0].Op == "bin" && len(r.Args[0].Args) == 2 {
+		cnd, th, el := r.Args[0], r.Args[1], r.Args[2]
+		var m *Term
+		switch {
+		case cnd.Sym == ">" && cnd.Args[1].IsConst() && cnd.Args[1].Sym == "0":
+			m = cnd.Args[0]
+		case cnd.Sym == "<" && cnd.Args[0].IsConst() && cnd.Args[0].Sym == "0":
+			m = cnd.Args[1]
+		}
+		if m != nil && el.Op == "call" && el.Sym == "builtin.append" && len(el.Args) == 2 && el.Args[0].String() == P(0) &&
+			th.Op == "call" && th.Sym == "builtin.append" && len(th.Args) == 2 && th.Args[0].String() == el.String() &&
+			th.Args[1].Op == "makeslice" && len(th.Args[1].Args) >= 1 && th.Args[1].Args[0].String() == m.String() {
+			src := el.Args[1]
+			if why := cutToWidth(src, P(1), P(2)); why != "" {
+				return why
+			}
+			if m.String() != "bin(-; "+P(2)+"; len("+src.String()+"))" {
+				return "the number of padding bytes is " + clip(m.String(), 120) + ", not width − len(data)"
+			}
+			return ""
+		}
+	}
 	alts := res[0].Alts()
 	var first, loop *Term
 	for _, a := range alts {
@@ -100,30 +123,8 @@ func appendPadHelper1(tb *TB, f *ssa.Function) string {
 	}
 	// the data: src cut to the width
 	src := first.Args[1]
-	srcOK := false
-	if src.Op == "ite" && src.Args[0].Op == "bin" && len(src.Args[0].Args) == 2 {
-		cut := fmt.Sprintf("slice(%s; none; %s; none)", P(1), P(2))
-		cut0 := fmt.Sprintf("slice(%s; const(0); %s; none)", P(1), P(2))
-		cnd := src.Args[0]
-		op := tokenOf(cnd.Sym)
-		x, y := cnd.Args[0].String(), cnd.Args[1].String()
-		if x == P(2) && y == "len("+P(1)+")" {
-			x, y = y, x
-			op = flipOp(op)
-		}
-		if x == "len("+P(1)+")" && y == P(2) {
-			th, el := src.Args[1].String(), src.Args[2].String()
-			isCut := func(s string) bool { return s == cut || s == cut0 }
-			switch op {
-			case token.GTR, token.GEQ:
-				srcOK = isCut(th) && el == P(1)
-			case token.LSS, token.LEQ:
-				srcOK = th == P(1) && isCut(el)
-			}
-		}
-	}
-	if !srcOK {
-		return "the appended data is " + clip(src.String(), 140) + ", not src cut to the width (src[:width] when longer)"
+	if why := cutToWidth(src, P(1), P(2)); why != "" {
+		return why
 	}
 	if loop == nil {
 		return "shorter inputs are not padded"
@@ -585,4 +586,34 @@ func init() {
 		thorough: []Config{CfgNative, Cfg386, CfgWasm},
 		run:      runC05,
 	})
+}
+
+// cutToWidth: src is  len(p1) > p2 ? p1[:p2] : p1  in any of its spellings; "" when it is.
+func cutToWidth(src *Term, p1, p2 string) string {
+	srcOK := false
+	if src.Op == "ite" && src.Args[0].Op == "bin" && len(src.Args[0].Args) == 2 {
+		cut := fmt.Sprintf("slice(%s; none; %s; none)", p1, p2)
+		cut0 := fmt.Sprintf("slice(%s; const(0); %s; none)", p1, p2)
+		cnd := src.Args[0]
+		op := tokenOf(cnd.Sym)
+		x, y := cnd.Args[0].String(), cnd.Args[1].String()
+		if x == p2 && y == "len("+p1+")" {
+			x, y = y, x
+			op = flipOp(op)
+		}
+		if x == "len("+p1+")" && y == p2 {
+			th, el := src.Args[1].String(), src.Args[2].String()
+			isCut := func(s string) bool { return s == cut || s == cut0 }
+			switch op {
+			case token.GTR, token.GEQ:
+				srcOK = isCut(th) && el == p1
+			case token.LSS, token.LEQ:
+				srcOK = th == p1 && isCut(el)
+			}
+		}
+	}
+	if !srcOK {
+		return "the appended data is " + clip(src.String(), 140) + ", not src cut to the width (src[:width] when longer)"
+	}
+	return ""
 }
